@@ -65,17 +65,21 @@ fn main() {
     job::set_hang_recorder(record_hang_violation);
     let args: Vec<String> = std::env::args().collect();
     let cmd = args.get(1).map(|s| s.as_str()).unwrap_or("");
-    let code = match cmd {
+    let code = explorer::with_pool(|| match cmd {
         "run" => cmd_run(&args),
         "replay" => cmd_replay(&args),
         "list" => cmd_list(&args),
         "selftest" => cmd_selftest(),
         "show" => cmd_show(&args),
+        "trace" => {
+            job::PRINT_STEPS.with(|p| p.set(true));
+            cmd_trace(&args)
+        }
         _ => {
             eprintln!("usage: sched-mc run|replay|list ...");
             2
         }
-    };
+    });
     std::process::exit(code);
 }
 
@@ -131,6 +135,95 @@ fn cmd_selftest() -> i32 {
     }
     println!("selftest: {n} driver families replay deterministically");
     0
+}
+
+pub fn point_name(id: u32) -> &'static str {
+    use grevm_verif_rt::pt::*;
+    match id {
+        0 => "(runtime)",
+        ATOMIC_LOAD => "atomic.load",
+        ATOMIC_STORE => "atomic.store",
+        ATOMIC_RMW => "atomic.rmw",
+        MUTEX_LOCK => "mutex.lock",
+        RWLOCK_READ => "rwlock.read",
+        RWLOCK_WRITE => "rwlock.write",
+        ONCE => "once",
+        UNPARK => "unpark",
+        SPAWN => "spawn",
+        JOIN => "join",
+        THREAD_EXIT => "thread.exit",
+        YIELD => "YIELD",
+        PARK => "PARK",
+        BLOCK_LOCK => "BLOCK(lock)",
+        BLOCK_JOIN => "BLOCK(join)",
+        BLOCK_SCOPE => "BLOCK(scope)",
+        WORKER_NEXT => "worker.next",
+        VALIDATION_CLAIMED => "validation.claimed",
+        EXECUTION_CLAIMED => "execution.claimed",
+        EXEC_BEGIN => "exec.begin",
+        EXEC_DONE => "exec.done",
+        MV_READ => "mv.read",
+        MV_PUBLISH => "mv.publish",
+        HISTORY_RECORD => "history.record",
+        DEP_UPDATE => "dep.update",
+        EXEC_STATUS => "exec.status",
+        REWIND => "rewind",
+        VALIDATE_TS => "validate.ts",
+        VALIDATE_PROBE => "validate.probe",
+        VALIDATE_VERDICT => "validate.verdict",
+        FINALITY_READ => "finality.read",
+        FINALITY_PUBLISH => "finality.publish",
+        FINALITY_NOTIFY => "finality.notify",
+        COMMIT_TAKE => "commit.take",
+        COMMIT_PUBLISH => "commit.publish",
+        COMMIT_RELEASE => "commit.release",
+        ABORT => "abort",
+        RUN_ONCE => "run_once",
+        DB_FILL_STORAGE => "dbfill.storage",
+        DB_FILL_BASIC => "dbfill.basic",
+        DB_FILL_CODE => "dbfill.code",
+        COMMIT_APPLY => "commit.apply",
+        FINALITY_LOCK => "finality.lock",
+        VALIDATE_NOTIFY => "validate.notify",
+        ERROR_HEAD_CHECK => "error.headcheck",
+        HARNESS_DB => "harness.db",
+        HARNESS_PRECOMPILE => "harness.precompile",
+        HARNESS_ENTRY => "harness.entry",
+        HARNESS_OP => "harness.op",
+        _ => "?",
+    }
+}
+
+/// sched-mc trace --prop P --tier T --job ID --devs "s:r,s:r"
+fn cmd_trace(args: &[String]) -> i32 {
+    let prop = arg(args, "--prop").expect("--prop");
+    let tier = parse_tier(arg(args, "--tier"));
+    let id = arg(args, "--job").expect("--job");
+    let devs: Vec<explorer::Dev> = arg(args, "--devs")
+        .unwrap_or("")
+        .split(',')
+        .filter(|s| !s.is_empty())
+        .map(|p| {
+            let (a, b) = p.split_once(':').expect("s:r");
+            (a.parse().unwrap(), b.parse().unwrap())
+        })
+        .collect();
+    let jobs = families::jobs(prop, tier);
+    let Some(job) = jobs.iter().find(|j| j.id == id) else {
+        eprintln!("no such job");
+        return 2;
+    };
+    let known = KnownFindings { keys: vec![] };
+    match run_job(prop, job, (0, 1), None, Some(devs), &known) {
+        Ok(r) => {
+            println!("violation: {}", r.violation.map_or("none".to_string(), |v| v["detail"].to_string()));
+            0
+        }
+        Err(e) => {
+            eprintln!("MACHINERY-ERROR: {e}");
+            2
+        }
+    }
 }
 
 fn cmd_show(args: &[String]) -> i32 {
